@@ -58,6 +58,11 @@ const (
 // type: identifier | identifier '<' type '>'
 //
 func parseTerm(l *lexer, t token) (idempotent bool, typ termType, err error) {
+	if err = l.enter(); err != nil {
+		return false, termInvalid, err
+	}
+	defer l.leave()
+
 	switch t {
 	case tkInteger: // Integer lister
 		return true, termIntegerLiteral, nil
